@@ -294,7 +294,7 @@ SUBCHECKS = [
                   "resort-with:sort_nodes_": 60, "file:fix_roots=somas": 30, "file:fix_roots=nearest": 30,
                   "one-array-under-two-column-names": 80, "rows:parents-first-ids-not-growing": 200,
                   "rows:dense-ids-root-min-first": 100, "extra-column-of-64-bit-integers": 100,
-                  "ids-beyond-2^31": 50, "file:reset_index=False": 60, "extra-column-under-an-eswc-name": 60,
-                  "table-with-row-labels-other-than-0..n-1": 200, "sparse-extra-column-with-a-single-value": 150,
+                  "ids-beyond-2^31": 34, "file:reset_index=False": 47, "extra-column-under-an-eswc-name": 44,
+                  "table-with-row-labels-other-than-0..n-1": 200, "sparse-extra-column-with-a-single-value": 103,
                   "sorted-again-after-the-first-result-was-edited": 200}),
 ]
